@@ -59,6 +59,7 @@ class Group:
     def __init__(self, module, pkgdir):
         self.module, self.pkgdir = module, pkgdir
         self.files = []
+        self.extras = []    # (package dir relative to the module, helper file): overlaid into another package
         self.roots = {}     # name -> opts
         self.pkgname = None
         self.ir_path = None
@@ -97,6 +98,10 @@ def discover(prop):
             raise SystemExit('harness %s lacks //verif:module or //verif:pkg' % path)
         g = groups.setdefault((m.group(1), p.group(1)), Group(m.group(1), p.group(1)))
         g.files.append(path)
+        for mx in re.finditer(r'^//verif:extra\s+(\S+)\s+(\S+)', src, re.M):
+            ex = (mx.group(1), os.path.join(VERIF, 'harness', mx.group(2)))
+            if ex not in g.extras:
+                g.extras.append(ex)
         pk = re.search(r'^package\s+(\w+)', src, re.M).group(1)
         g.pkgname = pk
         pend = {}
@@ -127,6 +132,8 @@ def overlay_map(g, workdir):
     ov[os.path.join(g.absdir, 'zz_verif_prelude.go')] = prelude_for(g, workdir)
     for f in g.files:
         ov[os.path.join(g.absdir, 'zz_verif_' + os.path.basename(f))] = f
+    for pkgdir, f in g.extras:
+        ov[os.path.normpath(os.path.join(g.moddir, pkgdir, 'zz_verif_x_' + os.path.basename(f)))] = f
     return ov
 
 
@@ -706,6 +713,10 @@ def save_replay(rd, g, root, v, tier, workdir):
         dst = os.path.join(rd, os.path.basename(f))
         shutil.copy(f, dst)
         ov[os.path.join(g.absdir, 'zz_verif_' + os.path.basename(f))] = dst
+    for pkgdir, f in g.extras:
+        dst = os.path.join(rd, 'x_' + os.path.basename(f))
+        shutil.copy(f, dst)
+        ov[os.path.normpath(os.path.join(g.moddir, pkgdir, 'zz_verif_x_' + os.path.basename(f)))] = dst
     rootmap = '\n'.join('\t\t"%s": %s,' % (r, r) for r in sorted(g.roots))
     t = open(os.path.join(VERIF, 'engine', 'replay_test.go.tmpl')).read()
     t = t.replace('PKGNAME', g.pkgname).replace('ROOTMAP', rootmap)
